@@ -590,3 +590,16 @@ def _(query_text: Str, variable_prefix: Str) -> List[Str]:
     local_types(result=List[Str])
     ensures(is_fresh(result) and contents(result) == js_common_init(query_text, variable_prefix), 'record_object_and_NR_spellings')
     raises('AssertionError', False, 'prefix_is_a_or_b')
+
+
+@contract('js_rbql.TableWriter.set_header', name='C19.js.table_writer.set_header', props=['C19'])
+def _(self: Obj['js_rbql.TableWriter'], header: Opt[List[Str]]):
+    # as C07.table_writer.set_header: the header the engine announces is kept, as is, for the caller; the table is not touched
+    ensures(is_none(self.header) == is_none(header) and implies(not is_none(header), same(opt_val(self.header), opt_val(header))), 'header_kept_for_the_caller')
+    ensures(contents(self.table) == old(contents(self.table)), 'table_untouched')
+    modifies(field(self, 'header'))
+
+
+@contract('js_rbql.TableIterator.get_header', name='C19.js.table_iterator.get_header', props=['C19'])
+def _(self: Obj['js_rbql.TableIterator']) -> Opt[List[Str]]:
+    ensures(is_none(result) == is_none(self.column_names) and implies(not is_none(result), same(opt_val(result), opt_val(self.column_names))), 'the_column_names')
